@@ -55,7 +55,7 @@ var defaultWeights = map[string]float64{
 	"unjailReporter": 1.5, "withdrawTip": 3, "delegate": 4, "undelegate": 2.5, "redelegate": 1.5, "cancelUnbond": 0.7,
 	"createValidator": 0.5, "send": 1.5, "proposeDispute": 3, "addFee": 2, "vote": 6, "withdrawFeeRefund": 2.5,
 	"claimReward": 2.5, "addEvidence": 0.8, "updateTeam": 0.3, "withdrawTokens": 1.5, "claimDeposits": 1, "requestAttest": 1,
-	"tipCustom": 0, "submitCustom": 0, "registerSpec": 0.6, "govProposal": 0.8, "govVote": 2, "privileged": 0.6, "unjailVal": 0.5, "multiStake": 0.8,
+	"tipCustom": 0, "submitCustom": 0, "specThenFail": 0, "phantom": 0, "registerSpec": 0.6, "govProposal": 0.8, "govVote": 2, "privileged": 0.6, "unjailVal": 0.5, "multiStake": 0.8,
 }
 
 func (p Profile) weight(op string) float64 {
@@ -84,6 +84,8 @@ type Gen struct {
 	Rej map[string]int
 
 	Reports   []StoredReport
+	Phantoms  [][]byte // signed transactions that are never put into a block: replicas that "serve simulations" simulate them
+	ghosts    int
 	spots     [][]byte // known spot queries
 	customQ   [][]byte
 	depositID uint64
@@ -380,6 +382,14 @@ func (g *Gen) votePlan() func(c *Chain, v CometVal, honest []byte) VoteSpec {
 			faultBudget += v.Power
 			return VoteSpec{Flag: cmtproto.BlockIDFlagAbsent}
 		}
+		// a validator that has not registered its EVM address yet may send an extension that does not even decode
+		// (VerifyVoteExtension lets it through): new validators are the weakest, so this is usually the LAST commit vote
+		if g.P.VoteFault > 0 && (faultBudget+v.Power)*3 < total && g.jr.Chance(0.4) {
+			if _, err := c.App.BridgeKeeper.GetEVMAddressByOperator(c.CommittedCtx(), v.Keys.ValAdr.String()); err != nil {
+				faultBudget += v.Power
+				return VoteSpec{Flag: cmtproto.BlockIDFlagCommit, Extension: [][]byte{nil, []byte("{"), []byte("\x00not json"), []byte("[1,2]"), []byte(`{"OracleAttestations":7}`)}[g.jr.Pick(5)]}
+			}
+		}
 		if g.r.Chance(g.P.VoteFault) && (faultBudget+v.Power)*3 < total {
 			faultBudget += v.Power
 			switch g.r.Pick(3) {
@@ -505,6 +515,28 @@ func (g *Gen) op(op string, v *view) []byte {
 			qd = v.queries[g.r.Pick(len(v.queries))].QueryData
 		}
 		return g.tx(s, &oracletypes.MsgSubmitValue{Creator: s.Bech(), QueryData: qd, Value: g.valueFor(qd)})
+	case "specThenFail", "phantom":
+		// a transaction whose first message writes a data spec and whose last message fails: nothing of it may survive,
+		// neither in the store nor anywhere in the node. "phantom": the transaction is not even put into a block, it is
+		// only handed to replicas that simulate what they are sent; either way the query type is tipped and reported later
+		s := g.free(g.user)
+		if s == nil {
+			return nil
+		}
+		g.ghosts++
+		name := fmt.Sprintf("Ghost%d", g.ghosts)
+		spec := registrytypes.DataSpec{ResponseValueType: "uint256", AggregationMethod: []string{"weighted-median", "weighted-mode"}[g.r.Pick(2)],
+			AbiComponents: []*registrytypes.ABIComponent{{Name: "x", FieldType: "uint256"}}, ReportBlockWindow: uint64(1 + g.r.Pick(3))}
+		g.customQ = append(g.customQ, QueryData(name, abiPack([]string{"uint256"}, big.NewInt(1))))
+		msgs := []sdk.Msg{&registrytypes.MsgRegisterSpec{Registrar: s.Bech(), QueryType: name, Spec: spec},
+			&banktypes.MsgSend{FromAddress: s.Bech(), ToAddress: g.user().Bech(), Amount: sdk.Coins{rawCoin(g.c.W.Cfg.UserBalance * 1000)}}}
+		bz := g.tx(s, msgs...)
+		if op == "phantom" && bz != nil {
+			g.tb.Forget(s)
+			g.Phantoms = append(g.Phantoms, bz)
+			return nil
+		}
+		return bz
 	case "tipCustom":
 		s := g.free(g.user)
 		if s == nil || len(g.customQ) == 0 {
@@ -1010,6 +1042,15 @@ func (g *Gen) op(op string, v *view) []byte {
 				msgs = append(msgs, &stakingtypes.MsgDelegate{DelegatorAddress: s.Bech(), ValidatorAddress: g.valAddr(v, false), Amount: amt})
 			} else {
 				msgs = append(msgs, &stakingtypes.MsgUndelegate{DelegatorAddress: s.Bech(), ValidatorAddress: g.valAddr(v, false), Amount: amt})
+			}
+		}
+		if g.r.Chance(0.4) {
+			// a message that moves no stake, in front or at the end
+			send := &banktypes.MsgSend{FromAddress: s.Bech(), ToAddress: g.user().Bech(), Amount: sdk.NewCoins(rawCoin(1))}
+			if g.r.Chance(0.5) {
+				msgs = append(msgs, send)
+			} else {
+				msgs = append([]sdk.Msg{send}, msgs...)
 			}
 		}
 		return g.tx(s, msgs...)
